@@ -202,9 +202,11 @@ func runCompute(parent context.Context, in *ComputeIn) (obs ComputeObs) {
 	for i := 0; i < in.Repeat; i++ { // a pure function of its inputs: earlier calls must not matter
 		func() {
 			defer func() { _ = recover() }()
-			var st basic.FlatTailStats
 			o2 := append([]basic.ComputeOpt{}, opts...)
-			o2 = append(o2, basic.WithFlatTailStats(&st))
+			if i%2 == 1 {
+				var st basic.FlatTailStats
+				o2 = append(o2, basic.WithFlatTailStats(&st))
+			} // otherwise the caller's stats struct is reused: the measured run starts from a used one
 			if resIn != nil {
 				o2 = append(o2, basic.WithResultIn(&sparse.Vector{Dim: *in.ResultDim}))
 			}
@@ -346,7 +348,7 @@ func randGraph(r *Rng, n int) (Mat, Vec, string) {
 		}
 		m.Rows[i] = append(m.Rows[i], Ent{I: j, V: JFloat(v)})
 	}
-	kind := []string{"random", "cycle", "two-cycles", "star", "sinks", "self-loops", "disconnected", "wide-weights", "dense"}[r.Intn(9)]
+	kind := []string{"random", "cycle", "two-cycles", "star", "sinks", "self-loops", "disconnected", "wide-weights", "dense", "subnormal"}[r.Intn(10)]
 	switch kind {
 	case "cycle": // periodic
 		for i := 0; i < n; i++ {
@@ -398,6 +400,18 @@ func randGraph(r *Rng, n int) (Mat, Vec, string) {
 				add(i, j, r.Pos())
 			}
 		}
+	case "subnormal": // weights at the bottom of the binary64 range next to ordinary ones: scores underflow
+		for i := 0; i < n; i++ {
+			hi := n - 1 - r.Intn((n+1)/2) // an ordinary weight on a high index ...
+			add(i, hi, 1)
+			if r.Bool() {
+				add(i, r.Intn(n), r.Pos())
+			}
+			for k := 0; k < 2+r.Intn(3); k++ { // ... and several vanishing ones, mostly on lower indices
+				add(i, r.Intn(hi+1), []float64{5e-324, 1e-323, 1e-323, 2.5e-323, 1e-320}[r.Intn(5)])
+			}
+			add(i, hi, 1)
+		}
 	default:
 		for i := 0; i < n; i++ {
 			for k := 0; k < r.Intn(4); k++ {
@@ -428,6 +442,11 @@ func randGraph(r *Rng, n int) (Mat, Vec, string) {
 		p.Ents = []Ent{{I: r.Intn(n), V: 1}}
 	default:
 		p.Ents = sortedSpan(r, n, r.Pick(30, 70, 100), 0, r.Pos)
+	}
+	if r.Chance(20) && len(p.Ents) > 1 {
+		// an explicitly listed zero (a pre-trust file line "peer,0") or a value that underflows when scaled,
+		// in front of ordinary entries
+		p.Ents[r.Intn(len(p.Ents)-1)].V = JFloat([]float64{0, 5e-324, 1e-323}[r.Intn(3)])
 	}
 	return m, p, kind
 }
